@@ -333,7 +333,11 @@ pub fn execute(scn: &PairScn, ctx: &mut Ctx) {
 
 fn path_route(ctx: &mut Ctx, scn: &PairScn, shapes: &[shapefile::Shape], geoms: &[Geom], _ty: i32) {
     let dir = crate::scratch_dir();
-    let base = dir.join(format!("pair-{}", crate::prng::fnv_str(&serde_json::to_string(scn).unwrap_or_default())));
+    // two data sets side by side whose names agree up to a dot inside the stem ("pair-H.a.shp",
+    // "pair-H.b.shp"): each path names its own three files
+    let stem = format!("pair-{}", crate::prng::fnv_str(&serde_json::to_string(scn).unwrap_or_default()));
+    let base = dir.join(format!("{}.a.x", stem));
+    let neighbour = dir.join(format!("{}.b.x", stem));
     let shp_path = base.with_extension("shp");
     let mut expected: Vec<usize> = Vec::new();
     // the path is not fresh: longer files are already there and must be replaced entirely
@@ -362,6 +366,17 @@ fn path_route(ctx: &mut Ctx, scn: &PairScn, shapes: &[shapefile::Shape], geoms: 
             ctx.fail("C08", "panic", p.site(), p.text());
             return;
         }
+    }
+    // the neighbouring data set is written afterwards: other rows, another count
+    let r = guarded(|| -> Result<(), shapefile::Error> {
+        let mut w = Writer::from_path(neighbour.with_extension("shp"), table())?;
+        for k in 0..expected.len() + 2 {
+            on_shape!(&shapes[0], s => w.write_shape_and_record(s, &good_row(1000 + k))?, ());
+        }
+        Ok(())
+    });
+    if !matches!(r, Ok(Ok(()))) {
+        ctx.fail("C08", "path-write", "from_path", "Writer::from_path route failed for the neighbouring data set".to_string());
     }
     ctx.stats.reach("path-route");
     let never = |_: usize, _: usize| false;
@@ -393,6 +408,15 @@ fn path_route(ctx: &mut Ctx, scn: &PairScn, shapes: &[shapefile::Shape], geoms: 
     }
     for ext in ["shp", "shx", "dbf"] {
         let _ = std::fs::remove_file(base.with_extension(ext));
+        let _ = std::fs::remove_file(neighbour.with_extension(ext));
+    }
+    // whatever else a data set left in the directory under a name derived from the stem
+    if let Ok(rd) = std::fs::read_dir(&dir) {
+        for e in rd.flatten() {
+            if e.file_name().to_string_lossy().starts_with(&stem) {
+                let _ = std::fs::remove_file(e.path());
+            }
+        }
     }
 }
 
